@@ -100,7 +100,7 @@ pub fn check_c16(job: &JobSpec, r: &JobResult, src: &mut SrcLines) -> Option<Vio
                 detail: format!("step budget exhausted after {} ticks, last site {}", r.ticks, site),
             }
         }),
-        Outcome::Err { variant, text, filename, line } => match *variant {
+        Outcome::Err { variant, text, filename, line, included_in } => match *variant {
             "Syntax" | "Compiler" => {
                 // location must lie inside a delivered file
                 let delivered: Option<Vec<u8>> = if filename == "string" {
@@ -120,6 +120,25 @@ pub fn check_c16(job: &JobSpec, r: &JobResult, src: &mut SrcLines) -> Option<Vio
                     Some(d) => {
                         let max = line_count(&d);
                         if *line >= 1 && *line <= max {
+                            // the "included in" part of the location must lie inside the input as well
+                            if let Some((ifile, iline)) = included_in {
+                                let idel: Option<Vec<u8>> = if ifile == "string" {
+                                    Some(job.source.0.clone())
+                                } else {
+                                    job.includes.iter().find_map(|f| match &f.kind {
+                                        IncKind::File(b) if f.path == *ifile || f.path.ends_with(&format!("/{}", ifile)) => Some(b.0.clone()),
+                                        _ => None,
+                                    })
+                                };
+                                let ok = idel.map(|d| *iline >= 1 && *iline <= line_count(&d)).unwrap_or(false);
+                                if !ok {
+                                    return Some(Violation {
+                                        class: "BADLOC".into(),
+                                        key: "BADLOC|included_in".into(),
+                                        detail: format!("error says it was included from line {} of {:?}, which is outside the delivered input: {}", iline, ifile, text.chars().take(160).collect::<String>()),
+                                    });
+                                }
+                            }
                             None
                         } else {
                             let msg_head: String = text.chars().take(120).collect();
